@@ -479,6 +479,18 @@ func copyTree(src, dst string) error {
 	})
 }
 
+// hasLegacyFiles reports whether the directory holds anything that makes it
+// a V1 swamp folder: a (non-directory) entry named "meta" or a chunk file.
+func hasLegacyFiles(folder string) bool {
+	es, _ := os.ReadDir(folder)
+	for _, e := range es {
+		if !e.IsDir() {
+			return true
+		}
+	}
+	return false
+}
+
 func chunkFiles(folder string) []string {
 	var out []string
 	es, _ := os.ReadDir(folder)
@@ -689,6 +701,16 @@ func runC23(s C23Scenario) pbt.Outcome {
 	inScope := map[*c23Built]bool{}
 	for _, b := range built {
 		if b.folder == target || strings.HasPrefix(b.folder, target+string(filepath.Separator)) {
+			// A directory that holds neither a meta file nor a chunk file is no
+			// legacy swamp (e.g. its only record was deleted and the meta file is
+			// gone): the migrator is entitled to ignore it — it must then stay untouched.
+			if !hasLegacyFiles(b.folder) {
+				if len(b.ref) > 0 {
+					return pbt.Failf("harness", "folder without meta/chunk files from which V1 loads %d records", len(b.ref))
+				}
+				classes["folder-without-legacy-files-ignored"] = true
+				continue
+			}
 			inScope[b] = true
 		}
 	}
@@ -763,12 +785,12 @@ func runC23(s C23Scenario) pbt.Outcome {
 		why, isFailed := failed[resolve(b.folder)]
 		after := snapshot(b.folder)
 		if !inScope[b] {
-			// not below DataPath: must be untouched
+			// not below DataPath, or no legacy swamp at all: must be untouched
 			if d := diffSnapshots(b.before, after); d != "" {
-				return pbt.Failf("legacy-damaged", "swamp %s lies outside DataPath %q but its legacy folder changed: %s", shortStr(b.name), dataPath, d)
+				return pbt.Failf("legacy-damaged", "swamp %s is no legacy swamp below DataPath %q (outside it, or without meta/chunk files) but its folder changed: %s", shortStr(b.name), dataPath, d)
 			}
 			if _, err := os.Lstat(b.hyd); err == nil && b.sw.Fault != "dir-at-hyd-path" {
-				return pbt.Failf("partial-hyd", "swamp %s lies outside DataPath %q but a .hyd appeared", shortStr(b.name), dataPath)
+				return pbt.Failf("partial-hyd", "swamp %s is no legacy swamp below DataPath %q (outside it, or without meta/chunk files) but a .hyd appeared", shortStr(b.name), dataPath)
 			}
 			classes["swamp-outside-datapath-untouched"] = true
 			continue
